@@ -279,7 +279,9 @@ def logical_requests(ts, draw):
     near = _near(ts)
     lrs = [{"kind": "value", "v": v} for v in near]
     # xsi:nil="false"/"0" on an element that carries a value is not a null (XML families)
-    lrs += [{"kind": "value", "v": v, "nilattr": n} for v, n in zip(near[:2], ("false", "0"))]
+    # (the attribute may only appear at all on nillable elements: cvc-elt.3.1)
+    if ts["occ"]["nillable"]:
+        lrs += [{"kind": "value", "v": v, "nilattr": n} for v, n in zip(near[:2], ("false", "0"))]
     lrs += [{"kind": "null"}, {"kind": "null", "nilattr": "1"}, {"kind": "absent"}]
     for lit in ILL.get(k, []):
         lrs.append({"kind": "literal", "text": lit})
@@ -314,7 +316,7 @@ def cases(tier):
 
 
 # ---------------------------------------------------------------- applications
-def build_app(case, fam, calls):
+def build_app(case, fam, calls, validator="soft"):
     from spyne import rpc, Service, Application
     from spyne.model.complex import ComplexModel, ComplexModelMeta, Array, XmlAttribute
     from spyne.model.primitive import Integer
@@ -354,7 +356,7 @@ def build_app(case, fam, calls):
     P = {"xml": XmlDocument, "soap11": Soap11, "json": JsonDocument, "yaml": YamlDocument,
          "msgpack": MessagePackDocument, "http": HttpRpc}[fam]
     outp = JsonDocument() if fam == "http" else P()
-    return Application([Svc], tns=tns, in_protocol=P(validator="soft"), out_protocol=outp,
+    return Application([Svc], tns=tns, in_protocol=P(validator=validator), out_protocol=outp,
                        name="C05App")
 
 
